@@ -47,6 +47,8 @@ type Check struct {
 
 var registry = map[string]*Check{}
 
+var gcBallast []byte
+
 func Register(c *Check) { registry[c.ID] = c }
 
 // Violation as reported by a shard.
@@ -364,9 +366,14 @@ func Main() {
 	// Every execution creates fresh nodes (large channel buffers) while the live
 	// heap stays tiny, so the default pacer would collect after every other
 	// execution: collect only when 768 MB of garbage have accumulated.
-	if os.Getenv("VERIF_GC_DEFAULT") == "" {
-		debug.SetGCPercent(-1)
-		debug.SetMemoryLimit(768 << 20)
+	// Measured in this sandbox: touching fresh memory is what limits parallel
+	// workers (page faults do not scale across processes here), so the default
+	// pacer (small heap, pages recycled) beats a lazier collector. VERIF_GOGC overrides.
+	if v := os.Getenv("VERIF_GOGC"); v != "" {
+		if n, err := strconv.Atoi(v); err == nil {
+			gcBallast = make([]byte, 64<<20)
+			debug.SetGCPercent(n)
+		}
 	}
 	if len(os.Args) < 3 {
 		fmt.Fprintln(os.Stderr, "usage: vcheck <ID> <quick|thorough> [--replay file] | vcheck list")
